@@ -446,6 +446,13 @@ func ReqCopy(sb, src, db, dst string) HTTPReq {
 		Header: map[string]string{"Content-Type": "application/json"}, Body: []byte("{}")}
 }
 
+// ReqCopyWith: a rewrite whose body carries an object resource (the fields a client wants the destination to have).
+func ReqCopyWith(sb, src, db, dst string, m ObjMeta) HTTPReq {
+	r := ReqCopy(sb, src, db, dst)
+	r.Body = metaJSON("", m)
+	return r
+}
+
 // ---- response decoding ----------------------------------------------------------------------------
 
 // ObjView is what a client can observe of an object's metadata.
